@@ -18,13 +18,17 @@ Paths == [
     P2 |-> <<[t |-> 2, asns |-> <<A(0, 65001), A(0, 65002), A(0, 64512)>>]>>,
     P3 |-> <<[t |-> 2, asns |-> <<A(0, 65001), A(64086, 59905)>>]>>,              \* with 4200000001
     P4 |-> <<[t |-> 2, asns |-> <<A(0, 65001)>>], [t |-> 1, asns |-> <<A(0, 65010), A(1, 0)>>]>>,   \* sequence + set with 65536
-    P5 |-> <<[t |-> 2, asns |-> <<A(0, 65001), A(0, 23456), A(0, 23456)>>]>> ]   \* what a 2-byte speaker sends for P5x
+    P5 |-> <<[t |-> 2, asns |-> <<A(0, 65001), A(0, 23456), A(0, 23456)>>]>>,   \* what a 2-byte speaker sends for P5x
+    \* an aggregate seen through a 2-byte speaker: AS_TRANS in the sequence and in the set (goes with Q4)
+    P6 |-> <<[t |-> 2, asns |-> <<A(0, 65001), A(0, 23456), A(0, 65002)>>], [t |-> 1, asns |-> <<A(0, 23456), A(0, 65010), A(0, 65011)>>]>> ]
 \* AS4_PATH companions (only meaningful on 2-byte sessions)
 As4Paths == [
     none |-> <<>>,
     Q1 |-> <<[t |-> 2, asns |-> <<A(64086, 59905), A(1, 0)>>]>>,                   \* shorter than AS_PATH: merged
     Q2 |-> <<[t |-> 2, asns |-> <<A(0, 65001), A(64086, 59905), A(1, 0)>>]>>,      \* same length: replaces
-    Q3 |-> <<[t |-> 2, asns |-> <<A(0, 1), A(0, 2), A(0, 3), A(0, 4), A(0, 5)>>]>> ]  \* longer than AS_PATH: ignored
+    Q3 |-> <<[t |-> 2, asns |-> <<A(0, 1), A(0, 2), A(0, 3), A(0, 4), A(0, 5)>>]>>,  \* longer than AS_PATH: ignored
+    \* sequence of two and set of three (different counts): 4200000001 65002 { 65536 65010 65011 }
+    Q4 |-> <<[t |-> 2, asns |-> <<A(64086, 59905), A(0, 65002)>>], [t |-> 1, asns |-> <<A(1, 0), A(0, 65010), A(0, 65011)>>]>> ]
 
 B4(a, b, c, d) == <<a, b, c, d>>
 Meds == [none |-> <<>>, zero |-> B4(0, 0, 0, 0), ten |-> B4(0, 0, 0, 10), max |-> B4(255, 255, 255, 255)]
@@ -48,8 +52,8 @@ Dom == [
     extnh |-> BOOLEAN,               \* RFC 8950 extended next hop negotiated for ipv4 unicast
     mpr4 |-> BOOLEAN,                \* the MP_REACH_NLRI carries IPv4 prefixes with an IPv6 next hop (needs extnh)
     origin |-> {0, 1, 2},
-    path |-> {"P0", "P1", "P2", "P3", "P4", "P5"},
-    as4 |-> {"none", "Q1", "Q2", "Q3"},
+    path |-> {"P0", "P1", "P2", "P3", "P4", "P5", "P6"},
+    as4 |-> {"none", "Q1", "Q2", "Q3", "Q4"},
     med |-> {"none", "zero", "ten", "max"},
     pref |-> {"none", "hundred", "big"},
     atomic |-> BOOLEAN,
@@ -75,6 +79,7 @@ Base == [asn4 |-> TRUE, addpath |-> TRUE, ibgp |-> FALSE, extnh |-> FALSE, mpr4 
 Bases == { Base,
            [Base EXCEPT !.extnh = TRUE, !.mpr = "one", !.mpr4 = TRUE],                          \* RFC 8950
            [Base EXCEPT !.asn4 = FALSE, !.path = "P5", !.as4 = "Q1"],                            \* 2-byte peer with AS4_PATH
+           [Base EXCEPT !.asn4 = FALSE, !.path = "P6", !.as4 = "Q4"],                            \* ... of an aggregate (AS_SET)
            [Base EXCEPT !.nlri = "none", !.mpr = "two", !.mprLL = TRUE, !.addpath = FALSE],      \* IPv6 only, two next hops
            [Base EXCEPT !.nlri = "none", !.wd = "one", !.mpu = "one"],                           \* withdraw-only
            [Base EXCEPT !.asn4 = FALSE, !.ibgp = TRUE, !.path = "P0", !.aggr = TRUE, !.pref = "hundred"] }   \* iBGP, 2-byte AGGREGATOR
@@ -83,8 +88,8 @@ Fields == DOMAIN Base
 \* rows that are not well-formed UPDATEs for their session
 WellFormed(u) ==
     /\ (u.as4 # "none" => ~u.asn4)                                \* AS4_PATH only travels on 2-byte sessions
-    /\ (u.asn4 \/ u.path \in {"P0", "P1", "P2", "P5"})             \* a 2-byte AS_PATH cannot carry 4-byte numbers
-    /\ (u.path = "P5" => ~u.asn4)
+    /\ (u.asn4 \/ u.path \in {"P0", "P1", "P2", "P5", "P6"})             \* a 2-byte AS_PATH cannot carry 4-byte numbers
+    /\ (u.path \in {"P5", "P6"} => ~u.asn4)
     /\ (u.mprLL => u.mpr # "none")
     /\ (u.mpr4 => u.extnh /\ u.mpr # "none")
     /\ ~(u.mpu = "eor" /\ (u.nlri # "none" \/ u.wd # "none" \/ u.mpr # "none"))
@@ -130,10 +135,12 @@ EncItems(items, ext) == IF items = <<>> THEN <<>> ELSE Attr(Head(items).flags, H
 \*   "flags"   Optional / Transitive bits contradict the attribute's definition
 \*   "value"   ORIGIN 5, AS path segment type 7
 \*   "dup"     the attribute occurs a second time (with another value)
-\*   "overrun" the last attribute declares more bytes than the attribute block holds
+\*   "overrun" / "over1" / "over3"  the last attribute declares 5 / 1 / 3 more bytes than the attribute block holds
 \*   "nhlen"   MP_REACH_NLRI whose Next Hop Length (24) is not one its family allows
 FaultNames == {"origin", "aspath", "nexthop", "med", "pref", "atomic", "aggr", "comm", "originator", "cluster", "as4path", "mpreach", "mpunreach"}
-FaultForms == {"len", "zero", "flags", "value", "dup", "overrun", "nhlen"}
+FaultForms == {"len", "zero", "flags", "value", "dup", "overrun", "over1", "over3", "nhlen"}
+OverForms == {"overrun", "over1", "over3"}     \* the length field says 5 / 1 / 3 more bytes than follow
+OverBy(form) == CASE form = "over1" -> 1 [] form = "over3" -> 3 [] OTHER -> 5
 HasItem(u, n) == \E i \in 1..Len(Items(u)) : Items(u)[i].name = n
 Applicable(u, f) ==
     /\ HasItem(u, f[1])
@@ -142,7 +149,7 @@ Applicable(u, f) ==
     /\ (f[2] = "len" /\ f[1] = "aspath" => u.path # "P0")
     /\ (f[2] = "flags" => f[1] \notin {"mpreach", "mpunreach"})
     /\ (f[2] = "nhlen" => f[1] = "mpreach")
-    /\ (f[2] = "overrun" => f[1] \notin {"mpreach", "mpunreach"})
+    /\ (f[2] \in OverForms => f[1] \notin {"mpreach", "mpunreach"})
 
 WellKnown == {"origin", "aspath", "nexthop", "pref", "atomic"}
 BadFlags(it) == IF it.name \in WellKnown THEN Opt + Trans                   \* well-known marked optional
@@ -177,13 +184,13 @@ MoveLast(items, n) == SelectSeq(items, LAMBDA x : x.name # n) \o SelectSeq(items
 AttrRawLen(flags, code, val, declared) == <<(flags \div 32) * 32 + (flags % 16), code, declared>> \o val
 
 FaultyItems(u) == IF u.fault[1] = "none" THEN Items(u)
-                  ELSE IF u.fault[2] = "overrun" THEN MoveLast(Items(u), u.fault[1])
+                  ELSE IF u.fault[2] \in OverForms THEN MoveLast(Items(u), u.fault[1])
                   ELSE ApplyFault(Items(u), u.fault)
 FaultyAttrBytes(u) ==
-    LET its == IF u.rev /\ u.fault[2] \notin {"overrun", "dup"} THEN Reverse(FaultyItems(u)) ELSE FaultyItems(u) IN
-    IF u.fault[2] = "overrun"
+    LET its == IF u.rev /\ u.fault[2] \notin (OverForms \cup {"dup"}) THEN Reverse(FaultyItems(u)) ELSE FaultyItems(u) IN
+    IF u.fault[2] \in OverForms
     THEN LET last == its[Len(its)] IN
-         EncItems(SubSeq(its, 1, Len(its) - 1), u.ext) \o AttrRawLen(last.flags, last.code, last.val, Len(last.val) + 5)
+         EncItems(SubSeq(its, 1, Len(its) - 1), u.ext) \o AttrRawLen(last.flags, last.code, last.val, Len(last.val) + OverBy(u.fault[2]))
     ELSE EncItems(its, u.ext)
 
 \* RFC 7606 section 7 (and 3, 4, 5 for the generic rules): what the receiver must do
@@ -192,7 +199,7 @@ Action(u) ==
         internalOnly == IF u.ibgp THEN "withdraw" ELSE "discard"      \* LOCAL_PREF, ORIGINATOR_ID, CLUSTER_LIST from an external peer
     IN CASE n \in {"mpreach", "mpunreach"} -> "reset"                     \* 7606 3.g / 5.3: the NLRI cannot be located
          [] form = "dup" -> "first"                                       \* 7606 3.g: all but the first occurrence discarded
-         [] form = "overrun" -> "withdraw"                                \* 7606 4
+         [] form \in OverForms -> "withdraw"                              \* 7606 4
          [] n \in {"origin", "aspath", "nexthop", "med", "comm"} -> "withdraw"
          [] n \in {"pref", "originator", "cluster"} -> internalOnly
          [] n \in {"atomic", "aggr", "as4path"} -> "discard"
